@@ -376,7 +376,9 @@ def flatten_node(
     node: Any,
     prefix: str = "",
     path: str = "",
-    remove_context: Callable = regex.compile(r", ctx=.+?\(\)").sub,
+    remove_context: Callable = regex.compile(
+        r"""(?:'(?:[^'\\]|\\.)*'|"(?:[^"\\]|\\.)*")(*SKIP)(*FAIL)|, ctx=\w+\(\)"""
+    ).sub,
 ) -> str:
     r"""Traverse recursively (in pre-order) the given AST node and flatten its subtree.
 
@@ -387,7 +389,8 @@ def flatten_node(
         remove_context (Callable, optional): A function removing the node context encoded in the
             result of `ast.dump()`.
             [Not to be explicitly provided.](developer_manual/index.html#default-argument-trick)
-            Defaults to `regex.compile(r", ctx=.+?\(\)").sub`.
+            Defaults to the substitution method of a regular expression which skips the string
+            and bytes literals, and matches `, ctx=Load()`, `, ctx=Store()`, etc.
 
     Returns:
         str: A flat representation of the given node.
